@@ -122,7 +122,7 @@ impl Prop for C13 {
   const ID: &'static str = "C13";
   fn rule(&self) -> String {
     "triples (a, b, c) of ASCII trees of depth<=2 from gen::tree(positional) with the shared file-name precondition; \
-     18 law instances per triple (regroupings: typed nested, boxed nested, add one by one, new; single child; \
+     20 law instances per triple (regroupings: typed nested, boxed nested, add one by one, new; single child; \
      Raw('') / Original('') / empty ConcatSource as neutral elements at every position; CachedSource, Box, \
      ReplaceSource without and with only empty replacements), each side built fresh, compared on text and per-byte \
      attribution from map() and from the chunk stream (per line for columns=false). Non-trivial: one of a, b ends \
@@ -141,6 +141,7 @@ impl Prop for C13 {
       ("new([boxed [a,b], c]) == flat", cc(0, vec![cc(0, vec![a.clone(), b.clone()]), c.clone()])),
       ("new([a, boxed [b,c]]) == flat", cc(0, vec![a.clone(), cc(2, vec![b.clone(), c.clone()])])),
       ("new([boxed [a], boxed [b], boxed [c]]) == flat", cc(0, vec![cc(0, vec![a.clone()]), cc(1, vec![b.clone()]), cc(2, vec![c.clone()])])),
+      ("new over typed [a,b] and typed [c] (flattened by new) == flat", cc(3, vec![cc(0, vec![a.clone(), b.clone()]), cc(2, vec![c.clone()])])),
       ("boxed [boxed [a,b,c]] == flat", cc(0, vec![cc(0, vec![a.clone(), b.clone(), c.clone()])])),
       ("Raw('') between children == flat", cc(0, vec![Spec::Raw(String::new()), a.clone(), Spec::Raw(String::new()), b.clone(), c.clone(), Spec::RawStr(String::new())])),
       ("Original('') between children == flat", cc(0, vec![a.clone(), Spec::Orig { text: String::new(), name: "empty.js".into() }, b.clone(), Spec::Orig { text: String::new(), name: "empty.js".into() }, c.clone()])),
